@@ -392,6 +392,9 @@ pub fn c12(ctx: &Ctx) -> i32 {
             let r = b.create_order(crate::real::side_of(bid), 1, 0, Some(price));
             if r.is_ok() != on_grid || (r.is_err() && !b.get_orders().is_empty()) || b.create_order(crate::real::side_of(bid), 1, 0, None).ok() != Some(if on_grid { 1 } else { 0 }) {
                 Some(format!("{:?}", r.map_err(|e| e.to_string())))
+            } else if on_grid && b.get_orders()[0].price != price {
+                // an accepted creation stores the price that was asked for (and checked), not another one
+                Some(format!("Ok, but the order carries price {}", b.get_orders()[0].price))
             } else {
                 None
             }
